@@ -178,19 +178,22 @@ Section Win.
 
   (* ---------- the sender's side ---------- *)
   (* u = SND.UNA, R = SND.NXT, b = RCV.NXT; segs = what is still in the retransmission queue *)
-  Definition sending (t : tcb) (u R b : Z) (segs : list segment) : Prop :=
+  Definition sending (t : tcb) (u R b : Z) (segs : list segment) (ot : list Z) : Prop :=
     st t = Established /\ snd_una t = u /\ snd_nxt t = R /\ rcv_nxt t = b /\
-    snd_wnd t = 65535 /\ rcv_wnd t = 65535 /\ out_text t = [] /\ oneshot t = [] /\
+    snd_wnd t = 65535 /\ rcv_wnd t = 65535 /\ out_text t = ot /\ oneshot t = [] /\
     retx t = map (fun s => mkTx s false) segs /\
     fin_pending t = false /\ in_segs t = [] /\ in_text t = [] /\ rto t = RTO /\ time_wait t = None /\
     u32 u /\ u32 b /\ 100 <= mtu t <= 65535 /\
     (exists lp rp ackv, flight lp rp ackv u segs) /\ wadd u (flight_len segs) = R /\ flight_len segs <= 65535.
 
-  Lemma sending_quiet t R b : sending t R R b [] -> quiet t R b.
+  Lemma sending_writer t R b ot : sending t R R b [] ot -> writer t R b ot.
   Proof.
     intros (A1 & A2 & A3 & A4 & A5 & A6 & A7 & A8 & A9 & A10 & A11 & A12 & A13 & A14 & A15 & A16 & A17 & _).
-    unfold quiet. cbn [map] in A9. splits; auto; lia.
+    unfold writer. cbn [map] in A9. splits; auto; lia.
   Qed.
+
+  Lemma sending_quiet t R b : sending t R R b [] [] -> quiet t R b.
+  Proof. apply sending_writer. Qed.
 
   Lemma flight_offsets lp rp ackv a : forall segs off,
     flight lp rp ackv (wadd a off) segs -> 0 <= off -> off + flight_len segs <= 65535 ->
@@ -212,12 +215,12 @@ Section Win.
   Proof. intros Hu Hn. rewrite wsub_spec, wadd_spec. unfold u32, M32 in *. lia. Qed.
 
   (* the ACKs that answer the flight, one per segment, empty the retransmission queue *)
-  Lemma deliver_acks y b R : forall segs acks, Forall2 (ackfor b) segs acks -> forall s tz u f rest,
-    sending tz u R b segs ->
+  Lemma deliver_acks y b R ot : forall segs acks, Forall2 (ackfor b) segs acks -> forall s tz u f rest,
+    sending tz u R b segs ot ->
     end_of s (other y) = ELive tz -> net_of s y = map (fun h => mkSeg h []) acks ++ rest ->
     exists tz', deliver_all (length acks + f) c s y =
                 deliver_all f c (set_end (set_net s y rest) (other y) (ELive tz')) y /\
-                sending tz' R R b [] /\ mtu tz' = mtu tz.
+                sending tz' R R b [] ot /\ mtu tz' = mtu tz.
   Proof.
     intros segs acks. induction 1 as [|s0 h r hs Hah _ IH]; intros s tz u f rest HS Ez Ny.
     - exists tz. cbn [length Nat.add map app] in *. rewrite sys_same by assumption.
@@ -258,12 +261,12 @@ Section Win.
         * exists tz'. rewrite Ed, sys_collapse. splits; auto.
   Qed.
 
-  Lemma deliver_dupacks y b R : forall acks s tz f rest,
-    Forall (dupack b R) acks -> sending tz R R b [] ->
+  Lemma deliver_dupacks y b R ot : forall acks s tz f rest,
+    Forall (dupack b R) acks -> sending tz R R b [] ot ->
     end_of s (other y) = ELive tz -> net_of s y = map (fun h => mkSeg h []) acks ++ rest ->
     exists tz', deliver_all (length acks + f) c s y =
                 deliver_all f c (set_end (set_net s y rest) (other y) (ELive tz')) y /\
-                sending tz' R R b [] /\ mtu tz' = mtu tz.
+                sending tz' R R b [] ot /\ mtu tz' = mtu tz.
   Proof.
     induction acks as [|h hs IH]; intros s tz f rest Hd HS Ez Ny.
     - exists tz. cbn [length Nat.add map app] in *. rewrite sys_same by assumption. auto.
